@@ -77,6 +77,28 @@ func c02Correspondence(c *Ctx, cases []c02Case, outs []c02Outcome) {
 		}
 		return r.Chance(0.12)
 	}
+	// the two end-of-message assumptions about the look-ahead under which dm_roundtrip_five_modes_partial is
+	// proved (LaTailAscii, LaX12Tail), checked on the real HighLevelEncoder_lookAheadTest for every message
+	for _, k := range cases {
+		tot := len(k.Msg)
+		if c02IsMacro(k.Msg) {
+			tot -= 2
+		}
+		if tot < 1 {
+			continue
+		}
+		ok, detail := true, ""
+		if m := dmenc.HighLevelEncoder_lookAheadTest(k.Msg, tot-1, 0); m != 0 {
+			ok, detail = false, fmt.Sprintf("lookAheadTest(msg, total-1, ASCII) = %d, not ASCII", m)
+		}
+		if tot >= 4 && k.Msg[tot-1] >= 128 {
+			if dmenc.HighLevelEncoder_lookAheadTest(k.Msg, tot-4, 3) == 3 || dmenc.HighLevelEncoder_lookAheadTest(k.Msg, tot-4, 0) == 3 {
+				ok, detail = false, "look-ahead keeps/enters X12 for a last triplet followed by one extended character"
+			}
+			c.Note("la-assumption:x12-tail-checked")
+		}
+		c.Oracle("dm-la-assumption", ok, "dm-la-tail-assumption", "text="+hexs(k.Msg), detail)
+	}
 	nDec := 0
 	for i, k := range cases {
 		o := outs[i]
@@ -150,4 +172,12 @@ func c02Correspondence(c *Ctx, cases []c02Case, outs []c02Outcome) {
 		}
 	}
 	c.NoteN("dec-encoder-outputs", nDec)
+}
+
+func c02IsMacro(m []byte) bool {
+	if len(m) < 9 {
+		return false
+	}
+	h := string(m[:7])
+	return (h == "[)>\x1e05\x1d" || h == "[)>\x1e06\x1d") && m[len(m)-2] == 0x1e && m[len(m)-1] == 0x04
 }
